@@ -44,7 +44,9 @@ _PURE_METHODS = {
 import itertools as _it
 import functools as _ft
 import operator as _op
+import unicodedata as _ud
 _PURE_STDLIB = {
+    "unicodedata.normalize": _ud.normalize, "unicodedata.category": _ud.category, "unicodedata.combining": _ud.combining,
     "itertools.product": _it.product, "itertools.chain": _it.chain, "itertools.permutations": _it.permutations,
     "itertools.combinations": _it.combinations, "itertools.repeat": _it.repeat, "itertools.islice": _it.islice,
     "operator.itemgetter": _op.itemgetter, "operator.attrgetter": _op.attrgetter,
